@@ -296,70 +296,181 @@ fn run_sudo_shaped(cx: &mut Ctx, ck: CK) -> Result<(), String> {
     Ok(())
 }
 
+/// number of contracts on the chain (addresses are contract0, contract1, ... in creation order)
+fn n_contracts(app: &chain::App) -> usize {
+    let mut i = 0;
+    while app.wrap().query_wasm_contract_info(format!("contract{}", i)).is_ok() {
+        i += 1;
+    }
+    i
+}
+fn is_contract(app: &chain::App, a: &str) -> bool {
+    app.wrap().query_wasm_contract_info(a.to_string()).is_ok()
+}
+
+/// One instantiation attempt and everything the property sentence says about it: "a
+/// minter or collection can only be instantiated by a contract, never directly by a user
+/// account".  The SENDER decides; what the message names (a collection's `minter`, a
+/// minter's creator) is varied independently so that a check made against the wrong
+/// party shows.
+#[allow(clippy::too_many_arguments)]
+fn inst_probe(
+    cx: &mut Ctx,
+    w: &mut World,
+    ck: CK,
+    target: &str,
+    code: u64,
+    sender_role: &str,
+    sender: &str,
+    named_role: &str,
+    named: &str,
+    msg: &Value,
+    sender_answers_params: bool,
+    args_ok: bool,
+) {
+    let sender_contract = is_contract(&w.app, sender);
+    let named_contract = is_contract(&w.app, named);
+    let pre = w.snapshot();
+    let n0 = n_contracts(&w.app);
+    let r = instantiate_json(&mut w.app, code, sender, msg, "direct");
+    let ok = r.is_ok();
+    let n1 = n_contracts(&w.app);
+    cx.rep.evaluations += 1;
+    let who = if sender_contract { "contract" } else { "user" };
+    cx.rep.bump(&format!("{}|instantiate|by-{}:{}|naming-{}|{}", ck.contract(), who, sender_role, named_role, if ok { "ok" } else { "err" }));
+    cx.nontrivial.insert(format!("{}|instantiate|{}|{}", ck.contract(), sender_role, named_role));
+    let row = RowId { ck, state: "fresh".into(), kind: "instantiate".into(), role: Some(format!("{} naming {}", sender_role, named_role)) };
+    if cx.verbose {
+        println!(
+            "  instantiate {:<32} by {:<22} ({:<9} {}) naming {:<20} ({:<9} {}) -> {}",
+            ck.contract(), sender_role, sender, if sender_contract { "contract" } else { "user" }, named_role, named,
+            if named_contract { "contract" } else { "no contract" }, if ok { "ok" } else { "err" }
+        );
+    }
+    // ---- monitors (property sentence)
+    if ok && !sender_contract {
+        cx.violation(
+            format!("C05:{}:instantiated-by-user", ck.contract()),
+            format!(
+                "{}: code {} was instantiated directly by the user account {} ({}); the message named {} = {} ({}) as {}",
+                ck.contract(), code, sender, sender_role, named_role, named,
+                if named_contract { "an existing contract" } else { "not a contract" }, target
+            ),
+            &row,
+        );
+    }
+    if ok && target == "creator" && !sender_answers_params {
+        // a minter code instantiated by a contract that is not a factory
+        cx.violation(
+            format!("C05:{}:instantiated-by-non-factory", ck.contract()),
+            format!("{}: code {} was instantiated by {} ({}), which does not answer the Params query", ck.contract(), code, sender, sender_role),
+            &row,
+        );
+    }
+    if !ok && (w.snapshot() != pre || n1 != n0) {
+        cx.violation(
+            format!("C05:{}:instantiate:rejected-call-changed-state", ck.contract()),
+            format!("{}: a rejected instantiate by {} changed state or created a contract ({} -> {} contracts)", ck.contract(), sender, n0, n1),
+            &row,
+        );
+    }
+    if !ok && sender_contract && args_ok && (target == "minter" || sender_answers_params) {
+        cx.rep.notes.push(format!("unexercised: {} instantiate by {} naming {} failed: {}", ck.contract(), sender_role, named_role, r.as_ref().err().unwrap().chars().rev().take(160).collect::<String>().chars().rev().collect::<String>()));
+    }
+    let t = if target == "minter" { "ICollection" } else { "IMinter" };
+    cx.cases.push(format!(
+        "CInst {} (mkIP {} {} {}) {} {}",
+        t, coq_bool(sender_contract), coq_bool(sender_answers_params), coq_bool(named_contract), coq_bool(args_ok), coq_bool(ok)
+    ));
+}
+
 /// (ii) a minter or a collection can only be instantiated by a contract
 fn run_instantiate_probes(cx: &mut Ctx) -> Result<(), String> {
+    // ---------------- the four collection codes
+    for k in CollKind::ALL {
+        let ck = CK::Coll(k);
+        let mut w = build(ck, "fresh")?;
+        let code = w.num("code");
+        let minter = w.addr("minter");
+        let factory = w.addr("minter2");
+        let receiver = w.addr("receiver");
+        // an unrelated contract: a plain whitelist
+        let wl_code = w.app.store_code(WlKind::Plain.code());
+        let now = chain::now(&w.app);
+        let (wmsg, fee) = wl_instantiate_json(WlKind::Plain, now + 10 * S, now + 90 * S, 50_000_000, &["creator"], true);
+        let wl = {
+            use cw_multi_test::Executor;
+            w.app.instantiate_contract(wl_code, Addr::unchecked("creator"), &wmsg, &[coin(fee, NATIVE)], "wl", None).map_err(|e| format!("{:#}", e))?
+        };
+        w.contracts.push(wl.clone());
+        let wl = wl.to_string();
+        // BY A USER ACCOUNT, the `minter` field naming ...: all must fail and create nothing
+        for (srole, sender) in [("stranger", "stranger"), ("creator", "creator")] {
+            let named: Vec<(&str, String)> = vec![
+                ("itself", sender.to_string()),
+                ("another-user", "buyer1".to_string()),
+                ("a-minter-contract", minter.clone()),
+                ("a-factory-contract", factory.clone()),
+                ("an-unrelated-contract", wl.clone()),
+                ("a-nonexistent-address", "nobody999".to_string()),
+            ];
+            for (nrole, n) in named {
+                let msg = coll_instantiate_json(&n, "creator");
+                inst_probe(cx, &mut w, ck, "minter", code, srole, sender, nrole, &n, &msg, false, true);
+            }
+        }
+        // BY A CONTRACT, naming itself / a different contract / a user: the sentence allows all of them
+        for (srole, sender, answers) in [("minter-contract", minter.clone(), false), ("factory-contract", factory.clone(), true), ("receiver-contract", receiver.clone(), false)] {
+            let named: Vec<(&str, String)> =
+                vec![("itself", sender.clone()), ("a-different-contract", wl.clone()), ("a-user", "stranger".to_string())];
+            for (nrole, n) in named {
+                let msg = coll_instantiate_json(&n, "creator");
+                inst_probe(cx, &mut w, ck, "minter", code, srole, &sender, nrole, &n, &msg, answers, true);
+            }
+        }
+    }
+    // ---------------- the eleven minter codes (the message names no factory: the factory IS
+    // the sender; what it names is the creator of the collection to be made)
     for mk in MinterKind::ALL {
+        let ck = CK::Minter(mk);
         let fk = mk.factory();
-        let mut w = build(CK::Minter(mk), "fresh")?;
-        let minter = Addr::unchecked(w.addr("minter"));
+        let mut w = build(ck, "fresh")?;
+        let minter = w.addr("minter");
         let factory = w.addr("factory");
         let collection = w.addr("collection");
-        let code = w.app.wrap().query_wasm_contract_info(minter.to_string()).map_err(|e| e.to_string())?.code_id;
+        let unrelated = w.aux.get("spare_whitelist").cloned().unwrap_or_else(|| collection.clone());
+        let code = w.app.wrap().query_wasm_contract_info(minter.clone()).map_err(|e| e.to_string())?.code_id;
         let ccode = w.app.wrap().query_wasm_contract_info(collection.clone()).map_err(|e| e.to_string())?.code_id;
         let mut req = CreateReq::standard(fk, ccode, &(NATIVE.to_string(), 0));
         if fk == FactoryKind::OpenEdition {
             req.num_tokens = Some(100);
         }
-        let msg = create_msg_json(&w.app, fk, "creator", &req)["create_minter"].clone();
-        // sender: a user account; a contract that is not a factory; the factory
-        for (who, sender, is_contract, answers) in
-            [("user", "creator".to_string(), false, false), ("non-factory-contract", collection.clone(), true, false), ("factory", factory.clone(), true, true)]
-        {
-            let pre = w.snapshot();
-            let r = instantiate_json(&mut w.app, code, &sender, &msg, "direct");
-            cx.rep.evaluations += 1;
-            cx.rep.bump(&format!("{}|instantiate|by-{}|{}", mk.name(), who, if r.is_ok() { "ok" } else { "err" }));
-            cx.nontrivial.insert(format!("{}|instantiate|{}", mk.name(), who));
-            let row = RowId { ck: CK::Minter(mk), state: "fresh".into(), kind: "instantiate".into(), role: Some(who.to_string()) };
-            if r.is_ok() && !(is_contract && answers) {
-                cx.violation(
-                    format!("C05:{}:instantiated-by-{}", mk.name(), who),
-                    format!("{}: code {} instantiated directly by {} ({})", mk.name(), code, who, sender),
-                    &row,
-                );
+        let mk_msg = |w: &World, creator: &str| create_msg_json(&w.app, fk, creator, &req)["create_minter"].clone();
+        for (srole, sender) in [("stranger", "stranger"), ("creator", "creator")] {
+            let named: Vec<(&str, String)> = vec![
+                ("itself", sender.to_string()),
+                ("another-user", "buyer1".to_string()),
+                ("a-minter-contract", minter.clone()),
+                ("a-factory-contract", factory.clone()),
+                ("an-unrelated-contract", unrelated.clone()),
+                ("a-nonexistent-address", "nobody999".to_string()),
+            ];
+            for (nrole, n) in named {
+                let msg = mk_msg(&w, &n);
+                inst_probe(cx, &mut w, ck, "creator", code, srole, sender, nrole, &n, &msg, false, true);
             }
-            if r.is_err() && w.snapshot() != pre {
-                cx.violation(format!("C05:{}:instantiate:rejected-call-changed-state", mk.name()), "rejected instantiate changed state".into(), &row);
-            }
-            cx.cases.push(format!("CInst IMinter {} {} {}", coq_bool(is_contract), coq_bool(answers), coq_bool(r.is_ok())));
         }
-    }
-    for k in CollKind::ALL {
-        let mut w = build(CK::Coll(k), "fresh")?;
-        let code = w.num("code");
-        let minter = w.addr("minter");
-        for (who, sender, is_contract) in [("user", "creator".to_string(), false), ("user-as-own-minter", "stranger".to_string(), false), ("contract", minter.clone(), true)] {
-            let pre = w.snapshot();
-            let msg = coll_instantiate_json(if is_contract { &minter } else { &sender }, "creator");
-            let r = instantiate_json(&mut w.app, code, &sender, &msg, "direct");
-            cx.rep.evaluations += 1;
-            cx.rep.bump(&format!("{}|instantiate|by-{}|{}", k.name(), who, if r.is_ok() { "ok" } else { "err" }));
-            cx.nontrivial.insert(format!("{}|instantiate|{}", k.name(), who));
-            let row = RowId { ck: CK::Coll(k), state: "fresh".into(), kind: "instantiate".into(), role: Some(who.to_string()) };
-            if r.is_ok() && !is_contract {
-                cx.violation(
-                    format!("C05:{}:instantiated-by-user", k.name()),
-                    format!("{}: code {} instantiated directly by the user account {}", k.name(), code, sender),
-                    &row,
-                );
+        // by contracts that are not a factory: must fail too (nobody answers the Params query)
+        for (srole, sender) in [("collection-contract", collection.clone()), ("minter-contract", minter.clone()), ("unrelated-contract", unrelated.clone())] {
+            for (nrole, n) in [("a-user", "creator".to_string()), ("the-sender", sender.clone())] {
+                let msg = mk_msg(&w, &n);
+                inst_probe(cx, &mut w, ck, "creator", code, srole, &sender, nrole, &n, &msg, false, true);
             }
-            if r.is_err() && w.snapshot() != pre {
-                cx.violation(format!("C05:{}:instantiate:rejected-call-changed-state", k.name()), "rejected instantiate changed state".into(), &row);
-            }
-            if is_contract && r.is_err() {
-                cx.rep.notes.push(format!("unexercised: {} instantiate by a contract failed: {}", k.name(), r.as_ref().err().unwrap()));
-            }
-            cx.cases.push(format!("CInst ICollection {} false {}", coq_bool(is_contract), coq_bool(r.is_ok())));
+        }
+        // by the factory: the ordinary flow (creator a user), and naming a contract as creator
+        for (nrole, n, args_ok) in [("a-user", "creator".to_string(), true), ("a-minter-contract", minter.clone(), false)] {
+            let msg = mk_msg(&w, &n);
+            inst_probe(cx, &mut w, ck, "creator", code, "factory-contract", &factory, nrole, &n, &msg, true, args_ok);
         }
     }
     Ok(())
